@@ -21,6 +21,9 @@ const (
 	dummyAudioFilterStageDummy    = 3
 )
 
+// dummyAudioFilterMaxGapMs 两帧视频的时间戳间隔超过这个值时，不再补齐中间的静音帧
+const dummyAudioFilterMaxGapMs = 10000
+
 type DummyAudioFilter struct {
 	uk          string
 	waitAudioMs int
@@ -145,9 +148,19 @@ func (filter *DummyAudioFilter) handleDummyStage(msg base.RtmpMsg) {
 		filter.onPopProxy(msg)
 		filter.prevAudioTs = ats
 	} else {
+		// 视频时间戳出现大幅跳跃（或回退、回绕）时，不逐帧补齐中间的静音帧：
+		// 补齐的耗时和跳跃的时间跨度成正比（期间一直占着group的锁），回绕时循环甚至无法结束。直接以当前时间戳重新开始
+		if msg.Header.TimestampAbs < filter.prevAudioTs || msg.Header.TimestampAbs-filter.prevAudioTs > dummyAudioFilterMaxGapMs {
+			ats := msg.Header.TimestampAbs
+			amsg := filter.makeOneAudio(ats)
+			filter.onPopProxy(amsg)
+			filter.onPopProxy(msg)
+			filter.prevAudioTs = ats
+			return
+		}
 		for {
 			ats := filter.prevAudioTs + filter.calcAudioDurationMs()
-			if ats > msg.Header.TimestampAbs {
+			if ats > msg.Header.TimestampAbs || ats < filter.prevAudioTs {
 				break
 			}
 			amsg := filter.makeOneAudio(ats)
